@@ -7,6 +7,7 @@ import (
 
 	"github.com/iotaledger/hive.go/runtime/options"
 	"github.com/iotaledger/hive.go/runtime/timed"
+	"verifharness/hx"
 	"verifsim/simrt"
 )
 
@@ -59,7 +60,14 @@ func queue(s *simrt.Sim) {
 	q := timed.NewQueue[int](timed.WithMaxSize[int](maxSize))
 	start := time.Now()
 	flags := []timed.ShutdownFlag{0, timed.CancelPendingElements, timed.IgnorePendingTimeouts, timed.CancelPendingElements | timed.IgnorePendingTimeouts}[s.Choose(4)]
-	s.Logf("config maxSize=%d shutdown=%s", maxSize, flagName(flags))
+	// optionally the shutdown also sets PanicOnModificationsAfterShutdown: a late Add then panics, the caller recovers,
+	// and everything else goes on as before
+	panicOn := s.Choose(3) == 2
+	shutFlags := flags
+	if panicOn {
+		shutFlags |= timed.PanicOnModificationsAfterShutdown
+	}
+	s.Logf("config maxSize=%d shutdown=%s panic-on-late-add=%v", maxSize, flagName(flags), panicOn)
 	var elems []*elem
 	var shutInv uint64
 	addersLeft := 0
@@ -203,7 +211,13 @@ func queue(s *simrt.Sim) {
 				e := &elem{id: len(elems) + 1}
 				elems = append(elems, e)
 				e.due = time.Since(start) + sp.d
-				h := q.Add(e.id, start.Add(e.due))
+				var h *timed.QueueElement[int]
+				if panicked, pv := hx.Try(func() { h = q.Add(e.id, start.Add(e.due)) }); panicked {
+					if !panicOn || shutInv == 0 {
+						s.Fail("panic", "queue:Add", "Add panicked (panic flag %v, Shutdown invoked at step %d): %v", panicOn, shutInv, pv)
+					}
+					s.Probe("late-add-panicked-and-was-recovered")
+				}
 				e.addRet = s.Tick()
 				e.added = h != nil
 				s.Logf("Add %d due=%v -> added=%v", e.id, e.due, e.added)
@@ -249,7 +263,7 @@ func queue(s *simrt.Sim) {
 		}
 		shutInv = s.Tick()
 		s.Logf("Shutdown(%s)", flagName(flags))
-		q.Shutdown(flags)
+		q.Shutdown(shutFlags)
 	})
 	left := s.Quiesce()
 	for _, t := range left {
@@ -329,7 +343,12 @@ func executor(s *simrt.Sim) {
 	ex := timed.NewExecutor(workers)
 	start := time.Now()
 	flags := []timed.ShutdownFlag{0, timed.CancelPendingElements, timed.IgnorePendingTimeouts}[s.Choose(3)]
-	s.Logf("config workers=%d shutdown=%s", workers, flagName(flags))
+	panicOn := s.Choose(3) == 2
+	shutFlags := flags
+	if panicOn {
+		shutFlags |= timed.PanicOnModificationsAfterShutdown
+	}
+	s.Logf("config workers=%d shutdown=%s panic-on-late-schedule=%v", workers, flagName(flags), panicOn)
 	var jobs []*job
 	var shutInv uint64
 	nsub := 1 + s.Choose(2)
@@ -355,25 +374,33 @@ func executor(s *simrt.Sim) {
 				j := &job{id: len(jobs) + 1}
 				jobs = append(jobs, j)
 				j.due = time.Since(start) + sp.d
-				j.handle = ex.ExecuteAt(func() {
-					j.runs++
-					j.startStep = s.Tick()
-					now := time.Since(start)
-					s.Logf("job %d runs at %v (due %v)", j.id, now, j.due)
-					if j.runs > 1 {
-						s.Fail("at-most-once", "executor", "job %d ran %d times", j.id, j.runs)
+				panicked, pv := hx.Try(func() {
+					j.handle = ex.ExecuteAt(func() {
+						j.runs++
+						j.startStep = s.Tick()
+						now := time.Since(start)
+						s.Logf("job %d runs at %v (due %v)", j.id, now, j.due)
+						if j.runs > 1 {
+							s.Fail("at-most-once", "executor", "job %d ran %d times", j.id, j.runs)
+						}
+						ignore := flags&timed.IgnorePendingTimeouts != 0 && shutInv != 0
+						if now < j.due && !ignore {
+							s.Fail("never-early", "executor", "job %d due at %v ran at %v", j.id, j.due, now)
+						}
+						if j.cancelRet != 0 && j.cancelAt < j.due && !(ignore && shutInv < j.cancelRet) {
+							s.Fail("cancel-honoured", "executor:cancelled-before-due", "job %d (due %v) ran at %v although its Cancel had returned at %v, before it was due", j.id, j.due, now, j.cancelAt)
+						}
+						if sp.work > 0 {
+							simrt.Sleep(sp.work)
+						}
+					}, start.Add(j.due))
+				})
+				if panicked {
+					if !panicOn || shutInv == 0 {
+						s.Fail("panic", "executor:ExecuteAt", "ExecuteAt panicked (panic flag %v, Shutdown invoked at step %d): %v", panicOn, shutInv, pv)
 					}
-					ignore := flags&timed.IgnorePendingTimeouts != 0 && shutInv != 0
-					if now < j.due && !ignore {
-						s.Fail("never-early", "executor", "job %d due at %v ran at %v", j.id, j.due, now)
-					}
-					if j.cancelRet != 0 && j.cancelAt < j.due && !(ignore && shutInv < j.cancelRet) {
-						s.Fail("cancel-honoured", "executor:cancelled-before-due", "job %d (due %v) ran at %v although its Cancel had returned at %v, before it was due", j.id, j.due, now, j.cancelAt)
-					}
-					if sp.work > 0 {
-						simrt.Sleep(sp.work)
-					}
-				}, start.Add(j.due))
+					s.Probe("late-schedule-panicked-and-was-recovered")
+				}
 				j.schedRet = s.Tick()
 				s.Logf("ExecuteAt job %d due=%v accepted=%v", j.id, j.due, j.handle != nil)
 				if j.handle != nil && sp.cancel > 0 {
@@ -403,7 +430,7 @@ func executor(s *simrt.Sim) {
 		}
 		shutInv = s.Tick()
 		s.Logf("Shutdown(%s)", flagName(flags))
-		ex.Shutdown(flags)
+		ex.Shutdown(shutFlags)
 		s.Logf("Shutdown returned")
 	})
 	left := s.Quiesce()
@@ -464,7 +491,7 @@ func taskExec(s *simrt.Sim) {
 	start := time.Now()
 	var tasks []*ttask
 	var cancels []*tcancel
-	var shutInv uint64
+	var shutInv, midShutInv uint64
 	nact := 1 + s.Choose(simrt.Bound(3, 4))
 	for a := 0; a < nact; a++ {
 		n := 1 + s.Choose(simrt.Bound(4, 6))
@@ -501,28 +528,54 @@ func taskExec(s *simrt.Sim) {
 				due := time.Since(start) + sp.d
 				t.due = due
 				t.schedInv = s.Tick()
-				h := te.ExecuteAt(sp.ident, func() {
-					t.runs++
-					t.startStep = s.Tick()
-					now := time.Since(start)
-					s.Logf("task #%d (id%d) starts at %v", t.seq, t.ident, now)
-					if t.runs > 1 {
-						s.Fail("at-most-once", "taskexecutor", "task #%d ran %d times", t.seq, t.runs)
+				var h *timed.ScheduledTask
+				panicked, pv := hx.Try(func() {
+					h = te.ExecuteAt(sp.ident, func() {
+						t.runs++
+						t.startStep = s.Tick()
+						now := time.Since(start)
+						s.Logf("task #%d (id%d) starts at %v", t.seq, t.ident, now)
+						if t.runs > 1 {
+							s.Fail("at-most-once", "taskexecutor", "task #%d ran %d times", t.seq, t.runs)
+						}
+						if now < due && shutInv == 0 {
+							s.Fail("never-early", "taskexecutor", "task #%d due at %v ran at %v", t.seq, due, now)
+						}
+						for i := 0; i < sp.work; i++ {
+							simrt.Sleep(2 * time.Millisecond)
+						}
+						t.endStep = s.Tick()
+						s.Logf("task #%d (id%d) ends", t.seq, t.ident)
+					}, start.Add(due))
+				})
+				if panicked {
+					if midShutInv == 0 {
+						s.Fail("panic", "taskexecutor:ExecuteAt", "ExecuteAt panicked although no Shutdown with the panic flag was invoked: %v", pv)
 					}
-					if now < due && shutInv == 0 {
-						s.Fail("never-early", "taskexecutor", "task #%d due at %v ran at %v", t.seq, due, now)
-					}
-					for i := 0; i < sp.work; i++ {
-						simrt.Sleep(2 * time.Millisecond)
-					}
-					t.endStep = s.Tick()
-					s.Logf("task #%d (id%d) ends", t.seq, t.ident)
-				}, start.Add(due))
+					s.Probe("late-schedule-panicked-and-was-recovered")
+				}
 				t.schedRet = s.Tick()
 				t.retTime = time.Since(start)
 				t.accepted = h != nil
 				s.Logf("ExecuteAt(id%d) -> task #%d due=%v accepted=%v", sp.ident, t.seq, due, t.accepted)
 			}
+		})
+	}
+	if s.Choose(3) == 2 {
+		// a Shutdown in the middle (no cancel flag: what is pending still runs when it is due) with
+		// PanicOnModificationsAfterShutdown: later ExecuteAt calls panic and are recovered by their callers
+		d := s.Choose(8)
+		sl := simrt.Knob(s, 0, 2*time.Millisecond, 8*time.Millisecond)
+		s.Go("midshutdown", func() {
+			for i := 0; i < d; i++ {
+				simrt.Yield()
+			}
+			if sl > 0 {
+				simrt.Sleep(sl)
+			}
+			midShutInv = s.Tick()
+			s.Probe("taskexecutor-shut-down-while-actors-are-at-work")
+			te.Shutdown(timed.PanicOnModificationsAfterShutdown)
 		})
 	}
 	left := s.Quiesce()
@@ -623,11 +676,16 @@ func taskExec(s *simrt.Sim) {
 				excused = true
 			}
 		}
+		if midShutInv != 0 && t.schedRet > midShutInv {
+			excused = true // scheduled while / after shutting down: the call may have raced with the Shutdown (as for the queue)
+		}
 		if !excused {
 			s.Fail("eventually-once", "taskexecutor", "task #%d (id%d) was accepted, never cancelled or replaced, and never ran", t.seq, t.ident)
 		}
 	}
 	shutInv = s.Tick()
-	s.Go("shutdowner", func() { te.Shutdown() })
-	s.Quiesce()
+	if midShutInv == 0 {
+		s.Go("shutdowner", func() { te.Shutdown() })
+		s.Quiesce()
+	}
 }
